@@ -865,6 +865,15 @@ theorem translated_poly1305_finish (h : Model.Poly1305.Limbs) (pad0 pad1 : Nat) 
         ++ toLE 8 (Gen.Poly1305.finish h.l0 h.l1 h.l2 pad0 pad1).2 :=
   Proofs.GenPoly1305.finish_eq_model h pad0 pad1
 
+/-- the one length computation of `Poly1305::update` (where the whole blocks of the input end), translated from
+/repo/src/poly1305/poly1305_soft.rs on every run, is `m.len() − m.len() mod 16` for every length — as in the model, with no word
+width involved (inputs of 4 GiB and more included; the run reaches them only in the thorough tier, op `poly1305_huge`) -/
+theorem translated_poly1305_update_split (n : Nat) :
+    Gen.Poly1305.update_full_blocks_end n = n - n % 16 ∧ 16 ∣ Gen.Poly1305.update_full_blocks_end n ∧
+      n - Gen.Poly1305.update_full_blocks_end n < 16 :=
+  ⟨Proofs.GenPoly1305.update_full_blocks_end_eq n, (Proofs.GenPoly1305.update_full_blocks_end_spec n).1,
+   (Proofs.GenPoly1305.update_full_blocks_end_spec n).2.2⟩
+
 /-- hence the MAC assembled from the *translated* functions is RFC 8439 Poly1305 for every 32-byte key and message -/
 theorem translated_poly1305_mac_eq_spec (key msg : Bytes) (hk : key.length = 32) :
     Proofs.GenPoly1305.macGen key msg = Spec.Poly1305.mac key msg := by
